@@ -69,15 +69,41 @@ def check_case(chk, c, found, maxperms):
                 return
 
 
+def forced_cases(rng):
+    """inputs that the random categories reach only now and then (full table of seeded changes under seed 87):
+    MGDA on TWO rows of which one is dominated (<g0, g1> >= |g0|^2: the min-norm point of the segment is the
+    vertex g0), in both orders; TrimmedMean with maximal and with b = 2 trimming on tall three-letter matrices
+    (several equal entries straddling the median of every column)"""
+    out = []
+    for g0, g1 in ([[1, 0], [3, F(1, 2)]], [[1, 1, 0], [3, 2, 1]], [[2, -1, 0, 1], [5, -2, 1, 3]],
+                   [[F(1, 4), 0, F(1, 4)], [1, F(1, 2), 2]]):
+        for rows in ([g0, g1], [g1, g0]):
+            out.append({"name": "MGDA", "params": A.gen_params(rng, "MGDA", 2),
+                        "J": [[F(x) for x in r] for r in rows], "cat": "forced_dominated_2rows"})
+    for m in (5, 6, 7):
+        for b in sorted({2, (m - 1) // 2}):
+            alpha = rng.sample([-7, -3, -1, 1, 2, 5, 9], 3)
+            n = rng.randint(2, 4)
+            J = [[F(rng.choice(alpha)) for _ in range(n)] for _ in range(m)]
+            J[0][0], J[m - 1][0] = F(min(alpha)), F(max(alpha))
+            for i in range(1, m - 1):
+                J[i][0] = F(sorted(alpha)[1])          # column 0: min, (m-2) x the middle letter, max
+            out.append({"name": "TrimmedMean", "params": {"b": b}, "J": J, "cat": "forced_few_values_tall"})
+    return out
+
+
 def run(chk):
     rng = pyrandom.Random(chk.seed * 67867967 + 10)
     q = chk.tier == "quick"
     found = set()
     cases, corr = [], []
     n = 13 * 30 if q else 13 * 300
-    for i in range(n):
-        name = NAMES[i % len(NAMES)]
-        if name == "GradDrop":
+    pre = forced_cases(rng)
+    for i in range(-len(pre), n):
+        name = NAMES[i % len(NAMES)] if i >= 0 else pre[i]["name"]
+        if i < 0:
+            c = pre[i]
+        elif name == "GradDrop":
             J, cat = A.gen_matrix(rng, mmax=4 if q else 5, nmax=5)
             c = {"name": name, "params": A.gen_params(rng, name, len(J)), "J": J, "cat": cat}
         else:
@@ -95,6 +121,8 @@ def run(chk):
                 while c["params"]["pref"] is None or len(set(c["params"]["pref"])) < 2:
                     c["params"]["pref"] = A.gen_pref(rng, len(c["J"]), positive=True)
         J, p = c["J"], c["params"]
+        if i < 0:
+            chk.note("forced_generated")
         if name == "TrimmedMean" and c["cat"].startswith("few_values") and len(J) >= 3:
             p["b"] = (len(J) - 1) // 2          # maximal trimming: the kept entries are the (tied) medians
         if len(J) < 2:
@@ -109,6 +137,8 @@ def run(chk):
             chk.note("skipped_unstable_" + name)
             continue
         cases.append(c)
+        if i < 0:
+            chk.note("forced_kept")
         if name != "GradDrop":
             sigma = list(range(len(J)))
             rng.shuffle(sigma)
